@@ -225,8 +225,47 @@ theorem exists_cons4 {α} (W : List α) (h : W.length = 4) : ∃ a b c d, W = [a
 
 theorem exists_cons20 (W : Bytes) (h : 20 ≤ W.length) :
     ∃ (a0 a1 a2 a3 a4 a5 a6 a7 a8 a9 a10 a11 a12 a13 a14 a15 a16 a17 a18 a19 : UInt8) (T : Bytes), W = a0::a1::a2::a3::a4::a5::a6::a7::a8::a9::a10::a11::a12::a13::a14::a15::a16::a17::a18::a19::T ∧ T.length + 20 = W.length := by
-  match W, h with
-  | a0::a1::a2::a3::a4::a5::a6::a7::a8::a9::a10::a11::a12::a13::a14::a15::a16::a17::a18::a19::T, _ => exact ⟨a0, a1, a2, a3, a4, a5, a6, a7, a8, a9, a10, a11, a12, a13, a14, a15, a16, a17, a18, a19, T, rfl, by simp⟩
+  obtain ⟨a0, W1, rfl⟩ := exists_cons W (by omega)
+  simp only [List.length_cons] at h
+  obtain ⟨a1, W2, rfl⟩ := exists_cons W1 (by omega)
+  simp only [List.length_cons] at h
+  obtain ⟨a2, W3, rfl⟩ := exists_cons W2 (by omega)
+  simp only [List.length_cons] at h
+  obtain ⟨a3, W4, rfl⟩ := exists_cons W3 (by omega)
+  simp only [List.length_cons] at h
+  obtain ⟨a4, W5, rfl⟩ := exists_cons W4 (by omega)
+  simp only [List.length_cons] at h
+  obtain ⟨a5, W6, rfl⟩ := exists_cons W5 (by omega)
+  simp only [List.length_cons] at h
+  obtain ⟨a6, W7, rfl⟩ := exists_cons W6 (by omega)
+  simp only [List.length_cons] at h
+  obtain ⟨a7, W8, rfl⟩ := exists_cons W7 (by omega)
+  simp only [List.length_cons] at h
+  obtain ⟨a8, W9, rfl⟩ := exists_cons W8 (by omega)
+  simp only [List.length_cons] at h
+  obtain ⟨a9, W10, rfl⟩ := exists_cons W9 (by omega)
+  simp only [List.length_cons] at h
+  obtain ⟨a10, W11, rfl⟩ := exists_cons W10 (by omega)
+  simp only [List.length_cons] at h
+  obtain ⟨a11, W12, rfl⟩ := exists_cons W11 (by omega)
+  simp only [List.length_cons] at h
+  obtain ⟨a12, W13, rfl⟩ := exists_cons W12 (by omega)
+  simp only [List.length_cons] at h
+  obtain ⟨a13, W14, rfl⟩ := exists_cons W13 (by omega)
+  simp only [List.length_cons] at h
+  obtain ⟨a14, W15, rfl⟩ := exists_cons W14 (by omega)
+  simp only [List.length_cons] at h
+  obtain ⟨a15, W16, rfl⟩ := exists_cons W15 (by omega)
+  simp only [List.length_cons] at h
+  obtain ⟨a16, W17, rfl⟩ := exists_cons W16 (by omega)
+  simp only [List.length_cons] at h
+  obtain ⟨a17, W18, rfl⟩ := exists_cons W17 (by omega)
+  simp only [List.length_cons] at h
+  obtain ⟨a18, W19, rfl⟩ := exists_cons W18 (by omega)
+  simp only [List.length_cons] at h
+  obtain ⟨a19, W20, rfl⟩ := exists_cons W19 (by omega)
+  simp only [List.length_cons] at h
+  exact ⟨a0, a1, a2, a3, a4, a5, a6, a7, a8, a9, a10, a11, a12, a13, a14, a15, a16, a17, a18, a19, W20, rfl, by simp⟩
 
 theorem hdr_chain (a0 a1 a2 a3 a4 a5 a6 a7 a8 a9 a10 a11 a12 a13 a14 a15 a16 a17 a18 a19 : UInt8)
     (T post : Bytes) (v0 v1 v8 v9 : UInt8) (x1 x2 x3 : Nat) (s0 s1 s2 s3 d0 d1 d2 d3 : UInt8) :
@@ -253,7 +292,6 @@ theorem csum_chain (h0 h1 h2 h3 h4 h5 h6 h7 h8 h9 h10 h11 : UInt8) (R post : Byt
     Sl.putBe16 ⟨(h0::h1::h2::h3::h4::h5::h6::h7::h8::h9::h10::h11::R) ++ post, R.length + 12⟩ 10 c =
       .ok ⟨(h0::h1::h2::h3::h4::h5::h6::h7::h8::h9::(Gp.putBe16 c ++ R)) ++ post, R.length + 12⟩ := by
   simp [Sl.putBe16, Sl.splice, Gp.putBe16]
-  omega
 
 theorem zero_chain (h0 h1 h2 h3 h4 h5 h6 h7 h8 h9 h10 h11 : UInt8) (R post : Bytes) :
     (do let s ← Sl.set ⟨(h0::h1::h2::h3::h4::h5::h6::h7::h8::h9::h10::h11::R) ++ post, R.length + 12⟩ 10 0
@@ -263,5 +301,42 @@ theorem zero_chain (h0 h1 h2 h3 h4 h5 h6 h7 h8 h9 h10 h11 : UInt8) (R post : Byt
 
 theorem bytes_win (W post : Bytes) (n : Nat) (h : W.length = n) : Sl.bytes ⟨W ++ post, n⟩ = W := by
   simp [Sl.bytes, ← h]
+
+/-! ## PrependBytes hands out a window; committing the stores -/
+
+theorem prepend_window (b : SBuf) (n : Nat) (hb : C18.Inv b) :
+    ∃ b1 w W0 post, prepend b n = (b1, w) ∧ w.n = n ∧ b1.mem.drop w.off = W0 ++ post ∧ W0.length = n ∧
+      b1.len - b1.start = n + (contents b).length ∧
+      (∀ W' : Bytes, W'.length = n →
+        contents { b1 with mem := b1.mem.take w.off ++ (W' ++ post) } = W' ++ contents b ∧
+        C18.Inv { b1 with mem := b1.mem.take w.off ++ (W' ++ post) }) := by
+  have hinv := C18.inv_prepend' b n hb
+  have hn : (prepend b n).2.n = n := rfl
+  have hoff : (prepend b n).2.off = (prepend b n).1.start := rfl
+  have hle := C18.prepend_start_len b n hb
+  have hcl := C18.prepend_contents_length b n hb
+  have hdrop := C18.prepend_contents_drop b n hb
+  generalize hp : prepend b n = r at hinv hn hoff hle hcl hdrop
+  obtain ⟨b1, w⟩ := r
+  simp only at hinv hn hoff hle hcl hdrop
+  have hclen := C18.contents_length b1 hinv
+  obtain ⟨i1, i2, i3⟩ := hinv
+  have harr : (b1.mem.drop w.off).length = b1.mem.length - b1.start := by simp [hoff]
+  refine ⟨b1, w, (b1.mem.drop w.off).take n, (b1.mem.drop w.off).drop n, rfl, hn,
+    (List.take_append_drop _ _).symm, ?_, by omega, ?_⟩
+  · simp [List.length_take]; omega
+  · intro W' hW'
+    have hpost : ((b1.mem.drop w.off).drop n).take (b1.len - b1.start - n) = contents b := by
+      rw [← hdrop]; simp only [contents]
+      rw [List.drop_take, hoff]
+    have htl : (b1.mem.take w.off).length = b1.start := by simp [hoff]; omega
+    constructor
+    · simp only [contents]
+      rw [List.drop_left' htl, List.take_append, hW']
+      rw [List.take_of_length_le (by omega), hpost]
+      rfl
+    · refine ⟨i1, ?_, ?_⟩
+      · simp only [List.length_append, htl, hW', List.length_drop]; omega
+      · simp only [List.length_append, htl, hW', List.length_drop]; omega
 
 end Gp.Ip4
